@@ -53,6 +53,10 @@ var c16atoms = []c16atom{
 	{"minimum:1", "min", c16any, func(d *simple.Def) { d.Minimum = c16f(1) }},
 	{"minimum:1,exclusive", "min", c16any, func(d *simple.Def) { d.Minimum = c16f(1); d.ExclusiveMinimum = true }},
 	{"minimum:-1", "min", c16any, func(d *simple.Def) { d.Minimum = c16f(-1) }},
+	// a bound of zero is where "unsigned values cannot lie below it" shortcuts go wrong
+	{"minimum:0,exclusive", "min", c16any, func(d *simple.Def) { d.Minimum = c16f(0); d.ExclusiveMinimum = true }},
+	{"maximum:0", "max", c16any, func(d *simple.Def) { d.Maximum = c16f(0) }},
+	{"maximum:0,exclusive", "max", c16any, func(d *simple.Def) { d.Maximum = c16f(0); d.ExclusiveMaximum = true }},
 	{"minimum:0.5,exclusive", "min", c16numberOnly, func(d *simple.Def) { d.Minimum = c16f(0.5); d.ExclusiveMinimum = true }},
 	{"multipleOf:2", "mul", c16any, func(d *simple.Def) { d.MultipleOf = c16f(2) }},
 	{"multipleOf:0.5", "mul", c16numberOnly, func(d *simple.Def) { d.MultipleOf = c16f(0.5) }},
